@@ -545,7 +545,7 @@ def plan(tier, seed):
         specs += [{"kind": "splitter", "examples": 30, "seed": seed * 1000 + 200 + k} for k in range(4)]
         specs += [{"kind": "unifier", "examples": 20, "seed": seed * 1000 + 300 + k} for k in range(4)]
     else:
-        specs = [{"kind": "tables", "examples": 320, "seed": seed * 1000 + k} for k in range(14)]
+        specs = [{"kind": "tables", "examples": 800, "seed": seed * 1000 + k} for k in range(14)]
         specs += [{"kind": "oversize", "cases": [["chains", 63], ["chains", 70], ["chains", 62]]},
                   {"kind": "oversize", "cases": [["residues", 10000], ["residues", 9999]]},
                   {"kind": "oversize", "cases": [["residues-icode", 10000], ["residues-icode", 10001]]}, {"kind": "oversize", "cases": [["residues-icode", 9999]]},
